@@ -6,6 +6,9 @@ import re
 
 from checks import common
 
+# this check never reads lean/MjProof/Gen: no generated-code lock needed
+USES_GEN = False
+
 META = {
     "technique": "Lean 4 proof (invariant by induction over every operation history, loop invariants for RemoveModel/Reset/Trim) + exact differential correspondence of full internal state dumps with the real mjCCache + transition oracle on the real class + syntactic lock-discipline scan",
     "text": "mjCCache (Insert, PopulateData, HasAsset, DeleteAsset, RemoveModel, Reset(model), Reset(), SetCapacity/Trim) is modelled as an executable Lean state machine with size_t wrap-around on byte counts. Proved for every operation history from the empty cache (byte counts and capacities < 2^63): size = sum of held asset sizes, size <= capacity, asset ids unique, insertion numbers unique, models_ and per-asset reference sets mutually consistent, no undefined behaviour (empty-queue dereference / dangling asset pointer) is reached; a lookup hit returns exactly the data of the most recent storing insert of that id and only when the resource timestamp equals the cached one; Trim evicts a prefix of the (access count, insertion number) order and stops as soon as the size fits; RemoveModel keeps every asset that another model still references (with unchanged data) and drops the others. The hand-written model is tied to the tree by replaying the same op lines through the real class (linked from the from-source build) and comparing complete canonical state dumps (size, capacity, counter, every asset field, priority-queue order, model tables) exactly: exhaustive histories over 2 models x 3 ids x 3 sizes x 2 timestamps (full alphabet to length 2/3, sub-alphabets and two fixed eviction/sharing alphabets to length 5/6) and seeded random long histories; an oracle evaluates the property predicates on every transition of the real class alone (size = recomputed sum, size <= capacity, queue order, cross references, lookup results against the last storing insert, minimal-prefix eviction, survival of shared assets). Concurrency: proved for sequential histories only; a scan of user_cache.{h,cc} checks that every public method holds the single std::mutex for its whole body (lock_guard first statement, private helpers lock-free and only reachable from members), so concurrent histories linearise in lock-acquisition order to the sequential model; a multi-threaded stress run checks the final state against the invariant and every concurrent hit against the version asked for (thorough tier also replays the random streams on the address/UB-sanitizer build).",
